@@ -224,6 +224,15 @@ func maxInts(xs []int) int {
 	return m
 }
 
+func restRequestBodyIsHTTPBody(view *BackendView) bool {
+	md := messageDescriptor(view.MI.In)
+	if view.Rule.Body == "*" {
+		return isHTTPBody(md)
+	}
+	f := md.Fields().ByName(protoName(view.Rule.Body))
+	return f != nil && f.Message() != nil && !f.IsList() && isHTTPBody(f.Message())
+}
+
 // responseFarBelow: a well-formed response none of whose messages comes near the limit in any encoding.
 func responseFarBelow(sc *Scenario, out *Outcome, L int) bool {
 	if sc.Backend.Kind != "ok" || sc.Backend.Fault != nil || out.Sent == nil || out.Sent.MI == nil {
@@ -378,6 +387,13 @@ func checkC10(c *sizeCase) *CheckResult {
 				}
 				if reqPlain > L && sc.Client.Form != FormREST && sc.Client.Form != FormConnectGet {
 					res.violate("oversized_converted", sig+":a3", "limit %d: request message of %d decompressed bytes was converted (%s -> %s) and delivered", L, reqPlain, ct, bt)
+				}
+				if view.Protocol == ProtoREST && sc.Client.Form != FormREST && view.Rule != nil && view.Rule.Body != "" && view.MI != nil && !view.MI.CStream && !restRequestBodyIsHTTPBody(view) {
+					// the JSON body built for a REST backend is the re-encoded form of the message (an
+					// HttpBody upload, forwarded chunk by chunk, is not one message)
+					if n := maxLen(view.Payloads); n > L {
+						res.violate("oversized_converted", sig+":a3", "limit %d: request message was re-encoded into a REST body of %d bytes (%s -> %s) and delivered", L, n, ct, bt)
+					}
 				}
 				if codecChanged && view.Protocol != ProtoREST {
 					// (a message that travels to the backend in a Connect GET URL is held to the limit like one in a body)
